@@ -1204,6 +1204,14 @@ func genTypeClassMethod(ctx TaggedStructContext, derives fp.Seq[metafp.TypeClass
 	return genMethod
 }
 
+// an embedded field keeps the name of its type in the Mutable struct, also when that type is unexported
+func mutableFieldName(f metafp.StructField) string {
+	if f.Embedded {
+		return f.Name
+	}
+	return publicName(f.Name)
+}
+
 func genMutable(ctx TaggedStructContext, genMethod fp.Set[string]) fp.Set[string] {
 	ts := ctx.ts
 	w := ctx.w
@@ -1264,7 +1272,7 @@ func genMutable(ctx TaggedStructContext, genMethod fp.Set[string]) fp.Set[string
 	if ts.Info.Method.Get("AsMutable").IsEmpty() {
 
 		fields := iterator.Map(iterator.FromSeq(allFields), func(f metafp.StructField) string {
-			return fmt.Sprintf(`%s : r.%s`, publicName(f.Name), f.Name)
+			return fmt.Sprintf(`%s : r.%s`, mutableFieldName(f), f.Name)
 		}).MakeString(",\n")
 
 		fmt.Fprintf(w, `
@@ -1284,7 +1292,7 @@ func genMutable(ctx TaggedStructContext, genMethod fp.Set[string]) fp.Set[string
 	if !isMethodDefined(workingPackage, mutableTypeName, "AsImmutable") {
 
 		fields := iterator.Map(iterator.FromSeq(allFields), func(f metafp.StructField) string {
-			return fmt.Sprintf(`%s : r.%s`, f.Name, publicName(f.Name))
+			return fmt.Sprintf(`%s : r.%s`, f.Name, mutableFieldName(f))
 		}).MakeString(",\n")
 
 		fmt.Fprintf(w, `
